@@ -52,6 +52,52 @@ def topo_shapes(rng, n):
     return es
 
 
+def totals(res):
+    """capacity by resource NAME: a worker may hold one resource type in several entries with distinct ids
+    (e.g. GPU:0 = 1 and GPU:1 = 1); requests use the id `any`, so only the sum per name matters"""
+    tot = {}
+    for r, q in res:
+        tot[r] = tot.get(r, 0) + q
+    return tot
+
+
+def split_entries(rng, res):
+    """the same capacity, held in several entries of one resource name"""
+    out = []
+    for r, q in res:
+        if q >= 2 and rng.random() < 0.5:
+            a = rng.randint(1, q - 1)
+            out += [[r, a], [r, q - a]]
+        else:
+            out.append([r, q])
+    return out
+
+
+def reservation_fits(flat, tasks, cand):
+    """half-open truth: the candidate reservation / running interval (wi, lo, hi, need) fits together with the
+    RUNNING and SCHEDULED tasks generated so far on that worker"""
+    wi, lo, hi, need = cand
+    ivs = [cand]
+    for t in tasks:
+        if t["state"] in ("S", "X") and t["prev"][0] == wi + 1:
+            rt, res = t["strats"][t["prev"][1]]
+            nd = totals(res)
+            if t["state"] == "X":
+                ivs.append((wi, t["_now"], t["_now"] + t["remaining"], nd))
+            else:
+                ivs.append((wi, t["prev"][2], t["prev"][2] + rt, nd))
+    cap = totals(flat[wi]["res"])
+    for (_, a, b, _n) in ivs:
+        use = {}
+        for (_, c, d, nd) in ivs:
+            if c <= a < d:
+                for r, q in nd.items():
+                    use[r] = use.get(r, 0) + q
+        if any(q > cap.get(r, 0) for r, q in use.items()):
+            return False
+    return True
+
+
 def gen_world(rng, profile="mixed", max_tasks=5):
     """A reachable scheduler input: graphs whose tasks are COMPLETED / RUNNING / SCHEDULED / RELEASED / VIRTUAL
     consistently with the edges, on 1-3 heterogeneous workers."""
@@ -66,7 +112,7 @@ def gen_world(rng, profile="mixed", max_tasks=5):
             res.append([1, rng.choice([1, 2])])
         if rng.random() < 0.15:
             res = [[1, 1]] if nres == 2 else res
-        flat.append({"res": res})
+        flat.append({"res": split_entries(rng, res) if rng.random() < 0.4 else res})
     if nworkers >= 2 and rng.random() < 0.5:
         pools = [flat[:1], flat[1:]]
     else:
@@ -81,7 +127,7 @@ def gen_world(rng, profile="mixed", max_tasks=5):
     ngraphs = rng.choice([1, 2, 2, 3])
     tasks, graphs = [], []
     tid = 0
-    free = [dict((r, q) for r, q in w["res"]) for w in flat]
+    free = [totals(w["res"]) for w in flat]
     budget = max_tasks
     for g in range(ngraphs):
         if budget <= 0:
@@ -131,12 +177,15 @@ def gen_world(rng, profile="mixed", max_tasks=5):
                         need = {}
                         for r, q in res:
                             need[r] = need.get(r, 0) + q
-                        tot = dict((r, q) for r, q in w["res"])
+                        tot = totals(w["res"])
                         if all(tot.get(r, 0) >= q for r, q in need.items()):
                             fits_now = all(free[wi].get(r, 0) >= q for r, q in need.items())
                             opts.append((wi, k, rt, need, fits_now))
                 if st == "X":
                     opts = [o for o in opts if o[4]]
+                if st == "C" and not opts:
+                    # a COMPLETED task stays completed (its children were generated accordingly); where it ran is irrelevant
+                    opts = [(0, 0, strats[0][0], {}, False)]
                 if not opts:
                     st = td["state"] = "R"
                 else:
@@ -144,22 +193,54 @@ def gen_world(rng, profile="mixed", max_tasks=5):
                     if st == "X":
                         started = rng.randint(max(td["release"], now - rt + 1), now) if now - rt + 1 <= now else now
                         started = max(started, td["release"])
-                        td["prev"] = [wi + 1, k, started]
-                        td["remaining"] = max(1, rt - (now - started))
-                        for r, q in need.items():
-                            free[wi][r] -= q
+                        rem = max(1, rt - (now - started))
+                        if reservation_fits(flat, tasks, (wi, now, now + rem, need)):
+                            td["prev"] = [wi + 1, k, started]
+                            td["remaining"] = rem
+                            td["_now"] = now
+                            for r, q in need.items():
+                                free[wi][r] -= q
+                        else:
+                            st = td["state"] = "R"
                     elif st == "S":
-                        td["prev"] = [wi + 1, k, now + rng.choice([1, 2, 6])]
+                        start = now + rng.choice([1, 2, 6])
+                        # reservations made by earlier invocations are jointly feasible with what runs and what is reserved
+                        if reservation_fits(flat, tasks, (wi, start, start + rt, need)):
+                            td["prev"] = [wi + 1, k, start]
+                        else:
+                            st = td["state"] = "R"
                     else:
                         started = max(td["release"], now - rt - rng.choice([0, 3]))
                         td["prev"] = [wi + 1, k, started]
                         td["completed"] = min(now, started + rt)
             tasks.append(td)
+    for t in tasks:
+        t.pop("_now", None)
     allowed0 = [rng.randrange(len(graphs))] if rng.random() < 0.15 else []
     horizon = max([t["deadline"] for t in tasks] + [now]) + 30
     return {"now": now, "pools": pools, "graphs": graphs, "tasks": tasks, "horizon": horizon,
             "cfg": {"enforce": enforce, "retract": retract, "release_tg": release_tg, "goal": goal,
                     "lookahead": lookahead, "allowed0": allowed0}}
+
+
+def gen_reserve_world(rng):
+    """One contended worker on which an earlier invocation reserved the whole capacity for task B (SCHEDULED for later,
+    retract_schedules off), and a released task C that cannot run without meeting B's reservation unless B is moved."""
+    now = rng.choice([0, 3, 10])
+    cap = rng.choice([1, 1, 2])
+    res = [[0, cap]] if cap == 1 or rng.random() < 0.5 else [[0, 1], [0, cap - 1]]
+    rt_b = rng.choice([6, 8, 10])
+    start_b = now + rng.choice([2, 3])
+    rt_c = rng.choice([4, 6, 10])
+    tasks = [{"id": 0, "graph": 0, "state": "S", "strats": [[rt_b, [[0, cap]]]], "deadline": now + rng.choice([rt_b + 4, 60]),
+              "release": now, "prev": [1, 0, start_b]},
+             {"id": 1, "graph": 1, "state": "R", "strats": [[rt_c, [[0, rng.randint(1, cap)]]]],
+              "deadline": now + 1 + rt_c + rng.choice([0, 1, 3]), "release": now}]
+    if rng.random() < 0.4:
+        tasks.append({"id": 2, "graph": 2, "state": "R", "strats": [[3, [[0, 1]]]], "deadline": now + 40, "release": now})
+    graphs = [{"id": t["graph"], "nodes": [t["id"]], "edges": []} for t in tasks]
+    return {"now": now, "pools": [[{"res": res}]], "graphs": graphs, "tasks": tasks, "horizon": now + 90,
+            "cfg": {"enforce": True, "retract": False, "release_tg": False, "goal": "max_goodput", "lookahead": 0, "allowed0": []}}
 
 
 # ----------------------------------------------------------------------------- Gallina rendering
@@ -172,7 +253,9 @@ def g_instance(w, r):
     observed state / release / deadline / remaining time of the real Task objects."""
     tds = {t["id"]: t for t in w["tasks"]}
     workers = [wd for pool in w["pools"] for wd in pool]
-    gw = glist(["(mkWorker %s %s)" % (gz(i + 1), gpairs(wd["res"])) for i, wd in enumerate(workers)])
+    # capacity by resource name, summed here over the worker's entries (first-occurrence order) — NOT taken from
+    # Resources.get_unique_resource_types, so the live model's capacity constants are compared with the true totals
+    gw = glist(["(mkWorker %s %s)" % (gz(i + 1), gpairs(list(totals(wd["res"]).items()))) for i, wd in enumerate(workers)])
     ts = []
     for tid in r["order"]:
         td = tds[tid]
@@ -220,13 +303,25 @@ def expected_sys(dump):
 
 # ----------------------------------------------------------------------------- running
 def run_worlds(worlds, probe=True, chunk=25):
-    """Run the adapter (several processes, deterministic order)."""
+    """Run the adapter (several processes, deterministic order).  A process that dies takes only its own worlds with
+    it: they are re-run one by one and the failure is recorded for the world that caused it."""
     from concurrent.futures import ThreadPoolExecutor
     for w in worlds:
         w["probe"] = bool(probe)
     parts = [worlds[i:i + chunk] for i in range(0, len(worlds), chunk)]
+
+    def one(part):
+        try:
+            return core.run_impl("ilp.py", {"cases": part}, timeout=900)["results"]
+        except Exception as e:      # noqa: BLE001
+            if len(part) == 1:
+                return [{"adapter_error": "adapter process failed", "traceback": str(e)[-1500:]}]
+            out = []
+            for w in part:
+                out.extend(one([w]))
+            return out
     with ThreadPoolExecutor(max_workers=8) as ex:
-        outs = list(ex.map(lambda p: core.run_impl("ilp.py", {"cases": p}, timeout=900)["results"], parts))
+        outs = list(ex.map(one, parts))
     res = []
     for o in outs:
         res.extend(o)
@@ -380,23 +475,35 @@ def run_sat_monitor(ctx, worlds, results, stream="M-sat"):
         ctx.broken.append({"kind": "monitor", "name": stream, "detail": str(e)[-800:]})
 
 
-def common_prelude(ctx, props_file, n_quick, n_thorough, profile="mixed"):
+def common_prelude(ctx, props_file, n_quick, n_thorough, profile="mixed", extra_reserve=0):
     ctx.fingerprint(FILES)
     ctx.translate(["Ilp"])
     built = ctx.build(props_file, deps=["Model/IlpModel.v"])
     n = n_quick if ctx.tier == "quick" else n_thorough
     worlds = [gen_world(ctx.rng, profile) for _ in range(n)]
+    worlds += [gen_reserve_world(ctx.rng) for _ in range(extra_reserve if ctx.tier == "quick" else 10 * extra_reserve)]
     results = run_worlds(worlds)
     errs = [(w, r) for w, r in zip(worlds, results) if "error" in r]
     for w, r in errs[:2]:
-        ctx.violation("raise", {"stream": "S-csys", "world": w, "what": "ILPScheduler.schedule() raised: " + r["error"]})
+        ctx.violation("raise%d" % worlds.index(w), {"stream": "S-csys", "world": w, "what": "ILPScheduler.schedule() raised: " + r["error"],
+                                "traceback": r.get("traceback")})
+    aerrs = [(w, r) for w, r in zip(worlds, results) if "adapter_error" in r]
+    for w, r in aerrs[:2]:
+        ctx.violation("adapter%d" % worlds.index(w), {"stream": "S-csys", "world": w, "error": r["adapter_error"], "traceback": r.get("traceback"),
+                                  "what": "the adapter could not interpret what the implementation built for this world: "
+                                          + r["adapter_error"]})
+    fed = [(w, r) for w, r in zip(worlds, results) if "seen_order" in r and r["seen_order"] != r.get("order")]
+    for w, r in fed[:2]:
+        ctx.violation("fed%d" % worlds.index(w), {"stream": "S-csys", "world": w, "fed_to_the_model": r["seen_order"], "offered_plus_previously_placed": r["order"],
+                              "what": "the planner fed its model another task list than offered + previously placed "
+                                      "(RUNNING, and SCHEDULED unless retract_schedules)"})
     stream_raises(ctx, worlds, results)
     nt, dist = distinct_nontrivial(worlds, results)
     ctx.cov["distinct_nontrivial"] += nt
     ctx.cov["input_distribution"] = dist
     ctx.rules.append("worlds: 1-3 task graphs (single/chain/fork/join/diamond/random DAG, <= %d tasks) whose tasks are "
                      "COMPLETED/RUNNING/SCHEDULED/RELEASED/VIRTUAL consistently with the edges, 1-3 heterogeneous workers in 1-2 "
-                     "pools, 1-2 strategies per task, deadlines from hopeless to loose, options enforce/retract/"
+                     "pools (capacities sometimes split over several entries of one resource name), 1-2 strategies per task, deadlines from hopeless to loose, options enforce/retract/"
                      "release_taskgraphs/lookahead/goal drawn at random; distinct = distinct world; non-trivial = >= 2 tasks "
                      "decided together of which one is RUNNING or SCHEDULED or a co-decided parent" % 5)
     for w, r in zip(worlds, results):
@@ -440,8 +547,101 @@ def hypothesis_monitor(ctx, worlds, results):
         ctx.broken.append({"kind": "monitor", "name": "M-hyp", "detail": str(e)[-800:]})
 
 
+def reservations(w):
+    """[task, [start, worker, strategy]] of the tasks an earlier invocation SCHEDULED for later (kept unless retract_schedules)"""
+    if w["cfg"]["retract"]:
+        return []
+    return [[t["id"], [t["prev"][2], t["prev"][0], t["prev"][1]]] for t in w["tasks"] if t["state"] == "S"]
+
+
+def plan_with_reservations(w, r, plan):
+    """the returned decisions in the order of the decided tasks; a SCHEDULED task without a returned decision keeps its
+    reservation (from the WORLD description, not from what the planner fed to its model)"""
+    resv = dict((t, d) for t, d in reservations(w))
+    got = dict((t, d) for t, d in plan)
+    states = r["state"]
+    out = []
+    for tid in r["order"]:
+        if states[str(tid)]["state"] == "X":
+            continue
+        if tid in got:
+            out.append([tid, got[tid]])
+        elif tid in resv:
+            out.append([tid, resv[tid]])
+    return out
+
+
+def py_capacity_ok(w, r, plan):
+    """Python form of the capacity clause of c10_check (half-open truth, at the start instants), used when the Coq
+    model cannot be evaluated"""
+    tds = {t["id"]: t for t in w["tasks"]}
+    flat = [wd for pool in w["pools"] for wd in pool]
+    sits = []
+    got = dict((t, d) for t, d in plan)
+    for tid in r["order"]:
+        td = tds[tid]
+        if r["state"][str(tid)]["state"] == "X":
+            wi, k = td["prev"][0], td["prev"][1]
+            sits.append((w["now"], wi, totals(td["strats"][k][1]), r["state"][str(tid)]["remaining"]))
+        elif got.get(tid):
+            s_, wi, k = got[tid]
+            if not (1 <= wi <= len(flat)) or not (0 <= k < len(td["strats"])):
+                return False
+            sits.append((s_, wi, totals(td["strats"][k][1]), td["strats"][k][0]))
+    for (tau, _, _, _) in sits:
+        for wi, wd in enumerate(flat):
+            use = {}
+            for (s_, w2, need, dur) in sits:
+                if w2 == wi + 1 and s_ <= tau < s_ + dur:
+                    for rn, q in need.items():
+                        use[rn] = use.get(rn, 0) + q
+            cap = totals(wd["res"])
+            if any(q > cap.get(rn, 0) for rn, q in use.items()):
+                return False
+    return True
+
+
+def reservation_monitor(ctx, worlds, results, stream="M-c10r"):
+    """C10 with the reservations of earlier invocations: (a) the returned Placements, completed with the reservation of
+    every SCHEDULED task that got no decision; (b) every solver / probing point, read back, with the reservation laid
+    over every SCHEDULED task it leaves unplaced."""
+    cases, info = [], []
+    for i, (w, r) in enumerate(zip(worlds, results)):
+        if "plan" not in r or not r.get("order"):
+            continue
+        pl = plan_with_reservations(w, r, r["plan"])
+        cases.append("(%s, %s)" % (g_instance(w, r), g_plan(pl)))
+        info.append((i, "returned", pl))
+    try:
+        bad = ctx.monitor_stream(stream, HEADER, "instance * plan", "(fun p => c10_check (fst p) (snd p))", cases, shard=100)
+    except core.ModelEvalError as e:
+        ctx.broken.append({"kind": "monitor", "name": stream, "detail": str(e)[-800:]})
+        bad = [j for j, (i, _, pl) in enumerate(info) if not py_capacity_ok(worlds[i], results[i], pl)]
+    for b in bad[:3]:
+        i, tag, pl = info[b]
+        ctx.violation("resv%d" % i, {"stream": stream, "world": worlds[i], "returned_placements": results[i]["plan"],
+                                     "with_reservations": pl, "fed_to_the_model": results[i].get("seen_order"),
+                                     "what": "the returned placements together with the tasks an earlier invocation scheduled for later "
+                                             "(and the running tasks) exceed a worker's capacity, or a decision is missing / invalid (C10)"})
+    pts = [(i, tag, vals) for i, tag, vals in monitor_points(worlds, results) if reservations(worlds[i])]
+    cases = ["(%s, %s, asg_of %s)" % (g_instance(worlds[i], results[i]), g_plan(reservations(worlds[i])), g_asg(vals)) for i, tag, vals in pts]
+    try:
+        bad = ctx.monitor_stream(stream + "p", HEADER, "instance * plan * assignment",
+                                 "(fun q => c10_check (fst (fst q)) (overlay (snd (fst q)) (readback (fst (fst q)) (snd q))))", cases, shard=80)
+        for b in bad[:3]:
+            i, tag, vals = pts[b]
+            ctx.violation("resvp%d" % b, {"stream": stream + "p", "world": worlds[i], "point": tag, "assignment": vals,
+                                          "reservations": reservations(worlds[i]),
+                                          "what": "a feasible point of the implementation's ILP, with the earlier reservations of the SCHEDULED "
+                                                  "tasks it leaves undecided, exceeds a worker's capacity (C10)"})
+    except core.ModelEvalError as e:
+        ctx.broken.append({"kind": "monitor", "name": stream + "p", "detail": str(e)[-800:]})
+    ctx.cov.setdefault("input_distribution", {})["worlds_with_reservations"] = sum(1 for w in worlds if reservations(w))
+
+
 def run(ctx):
-    built, worlds, results = common_prelude(ctx, ctx.pid.split("_")[0] + "_ilp", 80, 1200)
+    built, worlds, results = common_prelude(ctx, ctx.pid.split("_")[0] + "_ilp", 60, 1200, extra_reserve=12)
+    reservation_monitor(ctx, worlds, results)
     replay_corpus(ctx, "C10_ilp", "ILP-H1", lambda w, r: "error" in r,
                   "schedule() raises for a SCHEDULED task with a strategy that does not fit on some worker "
                   "(ilp_scheduler.py:248-255)", fixed=True)
